@@ -144,6 +144,18 @@ class SText(Sym):
         return f"SText({self.tid})"
 
 
+class SNumText(Sym):
+    """the decimal text of a symbolic number (str(x)); float()/int() of it give the number back
+    (A-float: float(str(x)) == x)"""
+    __slots__ = ("num",)
+
+    def __init__(self, num):
+        self.num = num  # SInt or SReal
+
+    def __repr__(self):
+        return f"SNumText({self.num})"
+
+
 class SRange:
 
     def __init__(self, start, stop):
